@@ -123,7 +123,7 @@ class CallMixin:
         from .stmts import GhostFun
 
         if isinstance(f, GhostFun):
-            return f.fn(*[self.ops.term(a, INT) for a in args])
+            return f.fn(*args)
         raise Unsupported(f"call of {f!r}")
 
     def call_spec(self, f, args, kwargs, st):
@@ -212,7 +212,24 @@ class CallMixin:
         if name in ("enumerate", "zip", "product", "reversed", "sorted", "map"):
             return ("#" + name,) + tuple(args)
         if name == "isinstance":
-            raise Unsupported("isinstance (resolve statically in the contract)")
+            x, cls = args
+            pt = ops.pt_of(x)
+            if isinstance(cls, EnumClass):
+                return pt.kind == "enum" and pt.name == cls.name
+            if isinstance(cls, RecordClass):
+                return pt.kind == "rec" and pt.name == cls.name
+            if isinstance(cls, ObjClass):
+                return isinstance(x, ObjRef) and x.cls == cls.name
+            raise Unsupported("isinstance against an unmodelled class")
+        if name == "the":
+            (x,) = args
+            return ops.opt_the(x)
+        if name == "fin":
+            (x,) = args
+            return SV(ops.fin_v(ops.term(x, EXT)), INT)
+        if name == "is_fin":
+            (x,) = args
+            return SV(ops.is_fin(ops.term(x, EXT)), BOOL)
         if name == "is_infinite":
             (x,) = args
             if ops.pt_of(x).kind == "int":
@@ -318,7 +335,7 @@ class CallMixin:
     def call_method(self, recv, name, args, kwargs, st, node=None, want=None):
         ops = self.ops
         if isinstance(recv, ObjRef):
-            c = self.find_method_contract(recv.cls, name)
+            c = self.find_method_contract(recv.cls, name, args)
             if c is None:
                 raise Unsupported(f"no contract for {recv.cls}.{name}")
             return self.apply_contract(c, recv, args, kwargs, st, node)
@@ -346,7 +363,7 @@ class CallMixin:
                 self.safety(st, smt.Ge(t, smt.Int(0)), "bit_length of a non-negative integer (only case modelled)")
                 return SV(self.ctx.app("bl", t), INT)
             if k == "seq" and name == "append":
-                new = SV(smt.SeqConcat(recv.term, smt.SeqUnit(ops.term(args[0], recv.pt.args[0]))), recv.pt)
+                new = SV(smt.SeqConcat(recv.term, smt.SeqUnit(ops.term(self.narrow(args[0], recv.pt.args[0], st), recv.pt.args[0]))), recv.pt)
                 self.store_place(place, new, st, inplace=True)
                 return None
             if k == "seq" and name == "extend":
@@ -362,7 +379,7 @@ class CallMixin:
                 self.store_place(place, new, st, inplace=True)
                 return None
             if k == "set" and name == "add":
-                new = SV(smt.Store(recv.term, ops.term(args[0], recv.pt.args[0]), smt.TRUE), recv.pt)
+                new = SV(smt.Store(recv.term, ops.term(self.narrow(args[0], recv.pt.args[0], st), recv.pt.args[0]), smt.TRUE), recv.pt)
                 self.store_place(place, new, st, inplace=True)
                 return None
             if k == "map" and name in ("keys", "values", "items"):
@@ -379,11 +396,32 @@ class CallMixin:
                     return self.apply_contract(c, recv, args, kwargs, st, node)
         raise Unsupported(f"method {name} on {recv!r}")
 
-    def find_method_contract(self, cls, name):
-        return self.E.registry.by_method.get((cls, name))
+    def find_method_contract(self, cls, name, args=None):
+        cs = self.E.registry.by_method.get((cls, name))
+        if not cs:
+            return None
+        if len(cs) == 1 or args is None:
+            return cs[0]
+        for c in cs:  # overloads: first variant whose leading parameter types accept the arguments
+            names = [n for n in c.params if n not in c.ghost and n != "self"]
+            ok = True
+            for n, a in zip(names, args):
+                t = c.params[n]
+                pt = self.tenv.parse(t) if isinstance(t, str) else t
+                try:
+                    apt = self.ops.pt_of(a)
+                except Unsupported:
+                    continue
+                if isinstance(pt, PT) and pt.kind == "enum" and not (apt.kind == "enum" and apt.name == pt.name):
+                    ok = False
+                if isinstance(pt, PT) and pt.kind != "enum" and apt.kind == "enum":
+                    ok = False
+            if ok:
+                return c
+        return cs[0]
 
     def construct(self, oc, args, kwargs, st):
-        c = self.find_method_contract(oc.name, "__init__")
+        c = self.find_method_contract(oc.name, "__init__", args)
         if c is None:
             raise Unsupported(f"no contract for {oc.name}.__init__")
         ref = self.alloc(oc.name, st, oc.name.lower())
